@@ -405,7 +405,10 @@ class Normalizer(object):
                             self.n(ast.Call(func=e.func, args=[ie.orelse], keywords=[])))
         args = [self.n(a) for a in pos_args]
         kws = tuple(sorted([(k.arg or '**', self.n(k.value)) for k in e.keywords] + extra_kw))
-        if d in self.transparent and len(e.args) == 1 and not [k for k in e.keywords if k.arg != 'dtype']:
+        if d in self.transparent and len(e.args) == 1 and not [k for k in e.keywords if k.arg != 'dtype'] and all(
+                (dotted(k.value) in ('float', 'np.float64', 'np.float_', 'np.double', 'numpy.float64'))
+                or (isinstance(k.value, ast.Constant) and k.value.value in ('float', 'float64', 'f8')) for k in e.keywords):
+            # a cast to double (or no dtype at all) does not change the value; any other dtype does (int truncates)
             return self.n(e.args[0])
         if extra_kw and name in (POW_FUNCS | {'abs', 'absolute', 'fabs', 'sqrt', 'multiply', 'add', 'divide', 'true_divide', 'subtract',
                                                'less', 'greater', 'less_equal', 'greater_equal', 'logical_and', 'logical_or'}):
